@@ -38,7 +38,8 @@ def field_src(f):
     tag = f["tag"]; ty = gotype(f["ty"])
     name = "F"; pre = ""
     jt = {"plain": 'json:"f"', "rename": 'json:"renamed_f"', "omitempty": 'json:"f,omitempty"', "string": 'json:"f,string"',
-          "dash": 'json:"-"', "notag": None, "unexported": 'json:"f"', "ignore": 'json:"f"', "rename_omitempty": 'json:"other,omitempty"'}[tag]
+          "dash": 'json:"-"', "notag": None, "unexported": 'json:"f"', "ignore": 'json:"f"', "rename_omitempty": 'json:"other,omitempty"',
+          "noname_omitempty": 'json:",omitempty"', "noname_string": 'json:",string"', "noname_both": 'json:",omitempty,string"'}[tag]
     if tag == "unexported":
         name = "f"
     if tag == "ignore":
@@ -139,7 +140,7 @@ def check_c16(run):
             sig = "a nil pointer, slice or map is encoded as null, which the scanned definition does not admit"
         elif "bytes" in describe(c) or "slice(uint8)" in describe(c):
             sig = "[]byte is described as an array of uint8 but encoding/json encodes it as a base64 string | " + ("encode" if ev["ev"] == "Encoded" else "decode")
-        elif ev["ev"] == "Decoded" and c["f"]["tag"] == "string":
+        elif ev["ev"] == "Decoded" and c["f"]["tag"] in ("string", "noname_string", "noname_both"):
             sig = "a scalar with the ,string option is described as a plain string: strings that are not a quoted value are accepted but do not decode"
         elif ev["ev"] == "Decoded" and "map[int]" in describe(c):
             sig = "a map with a non-string key type is described by an untyped schema: any value is accepted but only objects decode"
